@@ -463,6 +463,22 @@ func main() {
 	if run.Thorough() {
 		sizes = append(sizes, filler(4<<20))
 	}
+	// documents that the proxy's parse-and-render pass shrinks by k bytes, for every k in a window that contains the
+	// length of the inserted script element with and without a nonce: a length comparison between the original and
+	// the rewritten body has its coincidence there
+	var shrinking []doc
+	for k := 0; k <= 130; k++ {
+		var b strings.Builder
+		b.WriteString("<!DOCTYPE html><html><head><title>t</title></head><body>")
+		for i := 0; i < k; i++ {
+			b.WriteString("<p>l</p>\r\n") // CRLF becomes LF: one byte less per line
+		}
+		b.WriteString("</body></html>")
+		shrinking = append(shrinking, doc{fmt.Sprintf("crlf-lines-%d", k), b.String()})
+		if k%4 == 0 {
+			shrinking = append(shrinking, doc{fmt.Sprintf("nbsp-%d", k/4), "<!DOCTYPE html><html><head><title>t</title></head><body><p>" + strings.Repeat("&nbsp;", k/4) + "</p></body></html>"})
+		}
+	}
 	// core configurations for every document
 	var core []config
 	for _, e := range encs {
@@ -483,6 +499,11 @@ func main() {
 		}
 	}
 	for _, d := range docs {
+		for _, c := range core {
+			jobs = append(jobs, job{c, d})
+		}
+	}
+	for _, d := range shrinking {
 		for _, c := range core {
 			jobs = append(jobs, job{c, d})
 		}
